@@ -204,6 +204,111 @@ class Euler(Lemma):
         return (got is None or not np.allclose(got, X), {"coefficient": coef, "m": m, "steps": n, "native_X_T": None if got is None else got.tolist(), "euler_X_T": X.tolist()})
 
 
+class CoupledEuler(Lemma):
+    """CouplingSDE.simulate_one_path_with_coupling (real body) on a coupled driver path with n steps, m = d = 1 (times, both
+    Brownian and both jump components symbolic): each component follows the scheme of the property text on the driver's
+    grid -- the fine one with the fine driver path and drift mc_drift_h, the coarse one with the coarse path and mc_drift_2h,
+    the coefficient and the SDE drift evaluated at the LEFT end point t_i (a(t, x) = G(t) x, sde drift D(t): uninterpreted
+    functions of time), and the model's initial value is left untouched."""
+    prop = "C16"
+    cases = (1, 2)
+
+    def __init__(self):
+        self.name = "property:coupled-euler-scheme"
+
+    def prove(self, vc, n):
+        nm = f"{self.name}[steps={n}]"
+        it = vc.interp
+        ts = vc.reals("t", n + 1)
+        vc.assume(And(ts[0] == 0, *[a < b for a, b in zip(ts, ts[1:])]))
+        W = np.array(vc.reals("W", 2 * (n + 1)), dtype=object).reshape(2, n + 1)
+        Lp = np.array(vc.reals("L", 2 * (n + 1)), dtype=object).reshape(2, n + 1)
+        x0s = vc.real("x0")
+        x0 = np.array([x0s], dtype=object)
+        dh, d2h = vc.real("driver_drift_fine"), vc.real("driver_drift_coarse")
+        G = z3.Function("coefficient_at_time", z3.RealSort(), z3.RealSort())
+        D = z3.Function("sde_drift_at_time", z3.RealSort(), z3.RealSort())
+        Gs = lambda t_: Sym(G(as_real_term(lift(t_))), "r")
+        Ds = lambda t_: Sym(D(as_real_term(lift(t_))), "r")
+
+        def a_fn(i_, t_, x_):
+            X = np.asarray(x_, dtype=object)
+            if X.ndim == 3:        # stacked (fine, coarse) states: one 1 x 1 matrix per component
+                return np.array([[[Gs(t_) * X[k, 0, 0]]] for k in range(X.shape[0])], dtype=object)
+            return np.array([[Gs(t_) * np.ravel(X)[0]]], dtype=object)
+        a_obj = it.lib.Model(a_fn, "a(t, x) = G(t) x")
+        model = vc.obj(LD + "LevyDrivenSDEModel", x0=x0, a=a_obj, _m=1, _d=1)
+        it.hooks[LD + "LevyDrivenSDEModel.dimension"] = lambda i_, f, b: 1
+        fine = vc.obj(SD + "MarkovChainSDE", model=model)
+        it.hooks[SD + "MarkovChainSDE.sde_drift"] = lambda i_, f, b: np.array([[Ds(b["t"])]], dtype=object)
+        path = vc.new("rpylib.montecarlo.path:StochasticJumpPath", np.array(ts, dtype=object), W, Lp)
+        CS = "rpylib.process.coupling.couplingsde:"
+        drv = vc.obj("rpylib.process.coupling.couplingmarkovchain:CouplingMarkovChain")
+        it.hooks["rpylib.process.coupling.couplingmarkovchain:CouplingMarkovChain.simulate_one_path_with_coupling"] = lambda i_, f, b: path
+        o = vc.obj(CS + "CouplingSDE", model=model, fine_process=fine, mc_drift_h=dh, mc_drift_2h=d2h, driver_coupling_process=drv)
+        try:
+            res = vc.method(o, "simulate_one_path_with_coupling")
+            val = vc.method(res, "value")
+        except PyRaise as e:
+            vc.check(nm + "::evaluates-without-exception", False)
+            vc.path.results[-1].detail = str(e)
+            return
+        val = np.asarray(val, dtype=object)
+        ok_shape = val.shape in ((2, 1, n + 1), (2, n + 1))
+        vc.check(nm + "::path-shape", ok_shape)
+        if not ok_shape:
+            return
+        val = val.reshape(2, n + 1)
+        for comp, drift, tag in ((0, dh, "fine"), (1, d2h, "coarse")):
+            X = [x0s]
+            for i in range(n):
+                dt = ts[i + 1] - ts[i]
+                cur = X[-1]
+                X.append(cur + Ds(ts[i]) * dt + Gs(ts[i]) * cur * (drift * dt + (W[comp, i + 1] - W[comp, i]) + (Lp[comp, i + 1] - Lp[comp, i])))
+            vc.check(nm + f"::{tag}-component-follows-the-euler-recursion-on-the-driver's-grid", And(*[x0s + val[comp, i] == X[i] for i in range(n + 1)]))
+        x0_after = list(np.ravel(np.asarray(model.fields["x0"], dtype=object)))
+        vc.check(nm + "::the-model's-initial-value-is-untouched", len(x0_after) == 1 and compare(x0_after[0], x0s, "=="))
+
+    def replay(self, model, clause, n):
+        from types import SimpleNamespace
+        from rpylib.process.coupling.couplingsde import CouplingSDE
+        from rpylib.montecarlo.path import StochasticJumpPath
+        rng = np.random.default_rng(5)
+        ts = np.concatenate(([0.0], np.sort(rng.uniform(0.1, 1.0, n))))
+        W, Lp = rng.normal(size=(2, n + 1)) * 0.1, rng.normal(size=(2, n + 1)) * 0.1
+        W[:, 0] = 0
+        Lp[:, 0] = 0
+        gt, dt_ = (lambda t: 0.4 + 0.3 * t), (lambda t: 0.02 - 0.05 * t)
+        x0 = np.array([1.5])
+        x0_kept = x0.copy()
+
+        def a(t, x):
+            x = np.asarray(x)
+            return gt(t) * x.reshape(x.shape[0], 1, 1) if x.ndim == 3 else np.array([[gt(t) * np.ravel(x)[0]]])
+        o = CouplingSDE.__new__(CouplingSDE)
+        o.model = SimpleNamespace(x0=x0, a=a, dimension=lambda: 1, x0_value=lambda: x0)
+        o.fine_process = SimpleNamespace(sde_drift=lambda t, x: np.full_like(np.asarray(x, dtype=float), dt_(t)))
+        o.mc_drift_h, o.mc_drift_2h = 0.05, 0.03
+        o.driver_coupling_process = SimpleNamespace(simulate_one_path_with_coupling=lambda: StochasticJumpPath(ts, W, Lp))
+        try:
+            val = np.asarray(o.simulate_one_path_with_coupling().value()).reshape(2, n + 1)
+        except Exception as e:
+            return (True, {"steps": n, "exception": f"{type(e).__name__}: {e}"})
+        info = {"steps": n, "times": ts.tolist()}
+        bad = False
+        for comp, drift in ((0, 0.05), (1, 0.03)):
+            X = x0_kept[0]
+            for i in range(n):
+                d = ts[i + 1] - ts[i]
+                X = X + dt_(ts[i]) * d + gt(ts[i]) * X * (drift * d + (W[comp, i + 1] - W[comp, i]) + (Lp[comp, i + 1] - Lp[comp, i]))
+            got = x0_kept[0] + val[comp, -1]
+            info[f"component{comp}"] = {"native_X_T": float(got), "euler_X_T": float(X)}
+            bad = bad or abs(got - X) > 1e-10
+        if "untouched" in clause:
+            return (not np.allclose(x0, x0_kept), {"x0_before": x0_kept.tolist(), "x0_after_one_path": x0.tolist()})
+        return (bool(bad), info)
+
+
 class RateCoefficientFunctions(Lemma):
     """the coefficient functions of the two rate models (real sigma(t) bodies; m = 2 rates, d = 1 or 2 driver dimensions,
     tenors T0 < T1 < T2 and sigma symbolic), for a time in each region up to the last tenor: the result is an m x d matrix;
@@ -361,7 +466,7 @@ class ExponentialDf(Lemma):
             vc.check(self.name + f"::{cls.split(':')[1]}:identically-one", vc.method(vc.obj(cls), "df", t1) == 1)
 
 
-UNITS = [DiscountFactor(), Euler(), RateCoefficientFunctions(), RateModelConstructor(), ExponentialDf()]
+UNITS = [DiscountFactor(), Euler(), CoupledEuler(), RateCoefficientFunctions(), RateModelConstructor(), ExponentialDf()]
 
 
 def LATE_UNITS():
